@@ -82,8 +82,10 @@ def readFramesAtTime(
     params = audiofile.getparams()
     frameRate = params[2]
 
-    audiofile.setpos(round(frameRate * startTime))
-    frames = audiofile.readframes(round(frameRate * (endTime - startTime)))
+    startFrame = round(frameRate * startTime)
+    endFrame = round(frameRate * endTime)
+    audiofile.setpos(startFrame)
+    frames = audiofile.readframes(endFrame - startFrame)
 
     return frames
 
